@@ -22,7 +22,7 @@ from typing import Dict, List
 from core import Case
 
 PID = "C16"
-LEAN_MODULES = ["KrroodVerif.Props.C16"]
+LEAN_MODULES = ["KrroodVerif.Props.C16", "KrroodVerif.Props.C16Table"]
 THEOREMS = [
     "KrroodVerif.PD.C16_full",
     "KrroodVerif.PD.C16_partial",
@@ -42,7 +42,52 @@ THEOREMS = [
     "KrroodVerif.PD.C16_two_partial",
     "KrroodVerif.PD.C16_cex_adopt_shares",
     "KrroodVerif.PD.C16_cex_ctor_breaks",
+    # second tie: the mutator table (Model/MutatorTable.lean, Props/C16Table.lean)
+    "KrroodVerif.PD.C16_table_total",
+    "KrroodVerif.PD.C16_interp_eq_stepC",
+    "KrroodVerif.PD.C16_table_hand_meets_property",
+    "KrroodVerif.PD.C16_of_table_norm_eq",
+    "KrroodVerif.PD.C16_table_run",
 ]
+
+
+def extra_obligations():
+    """Second tie: regenerate the mutator table of MonitoredList / MonitoredSet / PropertyDescriptor.__set__ from /repo's
+    CURRENT source (Python ast) and have the kernel re-check that it is total over the public mutating API, that its
+    normal form is the one of the hand-written table (`PD.mutatorTable`, for which `C16_interp_eq_stepC` proves
+    `interp = stepC … Quirks.none`), and that its interpretation meets the property for all argument values."""
+    import os
+    import subprocess
+    import core
+    from translate.c16_translate import generate as gen, TranslationError, TRANSLATED
+    try:
+        text = gen(core.REPO)
+    except (TranslationError, SyntaxError, OSError, RecursionError) as e:
+        return [{"name": n, "ok": False, "detail": f"translator rejected the source: {e}"} for n in TRANSLATED]
+    tmp = core.LEAN_DIR / ".lake" / "audit"
+    tmp.mkdir(parents=True, exist_ok=True)
+    f = tmp / f"C16Translated_{os.getpid()}.lean"
+    f.write_text(text + "".join(f"#print axioms {n}\n" for n in TRANSLATED))
+    try:
+        p = subprocess.run(["lake", "env", "lean", str(f)], cwd=str(core.LEAN_DIR), capture_output=True, text=True,
+                           timeout=600)
+    finally:
+        try:
+            f.unlink()
+        except OSError:
+            pass
+    out = " ".join(((p.stdout or "") + (p.stderr or "")).split())
+    table = text[text.find("def mutatorTable"):text.find("/-- one row for every")]
+    res = []
+    for n in TRANSLATED:
+        m = re.search(r"'" + re.escape(n) + r"' depends on axioms: \[([^\]]*)\]", out)
+        none = re.search(r"'" + re.escape(n) + r"' does not depend on any axioms", out)
+        ax = [a.strip() for a in m.group(1).split(",")] if m else ([] if none else None)
+        ok = p.returncode == 0 and ax is not None and set(ax) <= core.ALLOWED_AXIOMS
+        res.append({"name": n, "ok": ok, "axioms": ax,
+                    "detail": "regenerated table:\n" + table + (p.stdout or "")[-1500:] + (p.stderr or "")[-800:]})
+    return res
+
 MODEL_FUNCTION = ("PD.stepC / PD.setterC (Assigned.same | other | lazyOf view) / PD.inplaceC / PD.addItemC / PD.runC "
                   "under PD.Quirks, PD.stepT / PD.runT (two owners) under PD.TQuirks, relations by PD.run "
                   "(Model/Descriptor.lean); specification PD.specC + PD.closure")
@@ -125,6 +170,27 @@ def _asis_step(cur: List[int], op, is_set: bool, keyf=None) -> List[int]:
         c = list(cur)
         c[op[1]:op[2]] = list(op[4])
         return c
+    if k in ("remove", "discard"):
+        c = list(cur)
+        for j, y in enumerate(c):
+            if kf(y) == kf(op[1]):
+                del c[j]
+                break
+        return c
+    if k == "pop":
+        c = list(cur)
+        c.pop(-1 if op[1] is None else op[1])
+        return c
+    if k == "delitem":
+        c = list(cur)
+        del c[op[1]]
+        return c
+    if k == "delslice":
+        c = list(cur)
+        del c[op[1]:op[2]]
+        return c
+    if k == "clear":
+        return []
     if k == "assign":
         out: List[int] = []
         for x in op[1]:
@@ -162,8 +228,15 @@ def _fmt(op) -> str:
         return f"({k} {op[1]} {op[2]})"
     if k == "assignSelf":
         return "(assignSelf)"
-    if k in ("drop", "fresh"):
+    if k in ("drop", "fresh", "remove", "discard", "delitem"):
         return f"({k} {op[1]})"
+    if k == "pop":
+        return "(pop)" if op[1] is None else f"(pop {op[1]})"
+    if k == "clear":
+        return "(clear)"
+    if k == "delslice":
+        b = lambda v: "-" if v is None else str(v)
+        return f"(delslice {b(op[1])} {b(op[2])})"
     if k == "setslice":
         b = lambda v: "-" if v is None else str(v)
         return f"(setslice {b(op[1])} {b(op[2])} {op[3]}{''.join(' ' + str(x) for x in op[4])})"
@@ -201,17 +274,39 @@ def _sequence(rng, n_obj: int, is_set: bool, clean: bool, maxlen: int, no_setite
                      "setslice"]
             if not clean:
                 kinds += ["assignSelf", "iadd", "iaddAlias", "assign", "iadd", "assignView", "assignView"]
+        if not in_two_owner and not no_setitem:
+            # mutators outside the property's list that only remove elements (inherited from list / set, no hook)
+            kinds += (["remove", "discard", "clear"] if is_set else ["remove", "pop", "delitem", "delslice", "clear"])
         if no_setitem:
             kinds = [x for x in kinds if x != "setitem"]
         if in_two_owner:
             kinds = [x for x in kinds if x != "setslice"]
         k = rng.choice(kinds)
+        if k in ("remove", "pop", "delitem") and not cur:
+            k = "clear" if rng.random() < 0.3 else ("add" if is_set else "append")
         if k in ("append", "add"):
             op = (k, rng.randrange(n_obj))
         elif k in ("extend", "update"):
             op = (k, xs)
         elif k in ("iadd", "iaddAlias"):
             op = (k, as_set_literal(xs) if is_set else xs)
+        elif k == "remove":
+            # an element of the field, or (value-equal populations) any object that compares equal to one
+            tgt = rng.choice(cur)
+            if keyf and rng.random() < 0.5:
+                tgt = rng.choice([o for o in range(n_obj) if keyf(o) == keyf(tgt)])
+            op = (k, tgt)
+        elif k == "discard":
+            op = (k, rng.choice(cur) if cur and rng.random() < 0.7 else rng.randrange(n_obj))
+        elif k == "pop":
+            op = (k, None if rng.random() < 0.5 else rng.randint(-len(cur), len(cur) - 1))
+        elif k == "delitem":
+            op = (k, rng.randint(-len(cur), len(cur) - 1))
+        elif k == "delslice":
+            bnd = lambda: None if rng.random() < 0.2 else rng.randint(-len(cur) - 2, len(cur) + 2)
+            op = (k, bnd(), bnd())
+        elif k == "clear":
+            op = (k,)
         elif k == "insert":
             op = (k, rng.randint(-len(cur) - 2, len(cur) + 2), rng.randrange(n_obj))
         elif k == "setitem":
@@ -305,10 +400,20 @@ def _recycle(rng, i: int) -> Case:
         if not cur:
             return
         if is_set:
-            k = rng.choice(["assign", "filt"])
+            k = rng.choice(["assign", "filt", "remove", "discard", "clear"])
         else:
-            k = rng.choice(["assign", "filt", "setslice", "setitem"])
-        if k == "assign":
+            k = rng.choice(["assign", "filt", "setslice", "setitem", "remove", "pop", "delitem", "delslice", "clear"])
+        if k in ("remove", "discard"):
+            emit((k, rng.choice(cur)))
+        elif k == "pop":
+            emit((k, None if rng.random() < 0.5 else rng.randint(-len(cur), len(cur) - 1)))
+        elif k == "delitem":
+            emit((k, rng.randint(-len(cur), len(cur) - 1)))
+        elif k == "delslice":
+            emit((k, rng.randint(0, len(cur) - 1), None))
+        elif k == "clear":
+            emit((k,))
+        elif k == "assign":
             emit(("assign", [x for x in dict.fromkeys(cur) if rng.random() < 0.3]))
         elif k == "filt":
             emit(("assignView", "filt", sorted({x for x in cur if rng.random() < 0.4})))
@@ -422,6 +527,101 @@ def _two_owner(rng, d: dict, i: int) -> Case:
     return Case(_line2(d, n_obj, f, a, b, init, ops), tags, "random")
 
 
+def _ctor_history(rng, i: int) -> Case:
+    """writes whose inference reaches the written instance's OWN fields: instances constructed mid-history with
+    keyword arguments for several managed fields at once (the dataclass `__init__` assigns them in declaration order:
+    a sub-property field declared before its super-property's collection field infers into a field `__init__` has not
+    assigned yet, and the assignment that follows finds the container inference created); a collection assigned as the
+    FIRST access to a field after such a construction (nothing has read the field); collections assigned to
+    transitive fields whose elements already have outgoing relations of that property (the hierarchy built top-down:
+    inference writes into the very field being populated). Schemas U (the repository's classes), D (diamond,
+    transitive, inverse), L. The history never assigns to a field that holds an asserted element (that is the open
+    C15 finding F-C15-3). Compared: relation triples + contents of every managed field, as sets, against the
+    closure of the asserted relations (= what appending the elements one by one gives)."""
+    tag = rng.choice(["U", "D", "D", "L"])
+    d = _desc(tag)
+    kinds, targets, order = d["kinds"], d["targets"], d["decl_order"]
+    plain = [c for c in range(d["nclasses"]) if c not in set(d["role_cls"])]
+    n_obj = rng.randint(3, 6)
+    cls_of = [rng.choice(plain) for _ in range(n_obj)]
+    late = sorted(rng.sample(range(n_obj), rng.randint(1, 2)))
+    if tag == "U":
+        # the repository's classes are eq-dataclasses: while an instance is being constructed, inference that compares
+        # it (`value in container`) with another instance of ITS class reads fields `__init__` has not assigned yet and
+        # raises AttributeError (candidate finding F-C16-10, see notes/build_reports/C16_table.md). Constructor cases
+        # on U stay outside that: the constructed instance is the only one of its class.
+        late = late[:1]
+        other = [c for c in plain if c != cls_of[late[0]]]
+        cls_of = [cls_of[o] if o in late else rng.choice(other) for o in range(n_obj)]
+    exists = [o for o in range(n_obj) if o not in late]
+    has_asserted, set_done = set(), set()
+    ops: List[str] = []
+    shapes = set()
+
+    def cands(f, among):
+        return [t for t in among if cls_of[t] in targets[f]]
+
+    def value(f, o, among):
+        """a value for field f of o (None when there is no admissible target yet)"""
+        ts = cands(f, among)
+        if not ts:
+            return None
+        if kinds[f] == "single":
+            return rng.choice(ts)
+        xs = [rng.choice(ts) for _ in range(rng.randint(1, 3))]
+        return list(dict.fromkeys(xs)) if kinds[f] == "set" else xs
+
+    def write(o):
+        fs = order[cls_of[o]]
+        if not fs:
+            return
+        f = rng.choice(fs)
+        v = value(f, o, exists)
+        if v is None:
+            return
+        if kinds[f] == "single":
+            if (f, o) in set_done:
+                return
+            set_done.add((f, o))
+            ops.append(f"(set {f} {o} {v})")
+        elif (f, o) not in has_asserted and rng.random() < 0.65:
+            ops.append(f"(assign {f} {o} {' '.join(map(str, v))})")
+            has_asserted.add((f, o))
+            shapes.add("assign")
+        else:
+            ops.append(f"(add {f} {o} {v[0]})")
+            has_asserted.add((f, o))
+
+    for _ in range(rng.randint(0, 4)):
+        if exists:
+            write(rng.choice(exists))
+    for o in late:
+        items = []
+        given = 0
+        for f in order[cls_of[o]]:
+            v = value(f, o, exists) if rng.random() < 0.55 else None
+            if v is None:
+                items.append(f"(default {f})")
+            elif kinds[f] == "single":
+                items.append(f"(set {f} {v})")
+                set_done.add((f, o))
+                given += 1
+            else:
+                items.append(f"(assign {f} {' '.join(map(str, v))})")
+                has_asserted.add((f, o))
+                given += 1
+        ops.append(f"(ctor {o} {' '.join(items)})")
+        shapes.add(f"ctor-{min(given, 3)}-kwargs")
+        exists.append(o)
+        for _ in range(rng.randint(0, 3)):
+            write(o if rng.random() < 0.7 else rng.choice(exists))
+    for _ in range(rng.randint(0, 3)):
+        write(rng.choice(exists))
+    objs = " ".join(f"({c} -)" for c in cls_of)
+    line = f"(hc {d['sexp']} (objs {objs}) (ops {' '.join(ops)}))"
+    return Case(line, ("constructed-and-coupled", "schema-" + tag) + tuple(sorted(shapes)), "random")
+
+
 def witness_lines() -> Dict[str, str]:
     d = _desc()
     return {
@@ -460,16 +660,34 @@ def generate(rng, tier, n):
         cases.append(_falsy(rng, i))
     for i in range(max(40, n // 8)):
         cases.append(_reassign(rng, i))
+    for i in range(max(90, n // 5)):
+        cases.append(_ctor_history(rng, i))
     return cases
 
 
+def compare(impl: str, other: str) -> bool:
+    """string equality, except for the `hc` family (relations + every field, C15's observation): a single-valued
+    field must hold one of the derivable targets"""
+    if impl == other:
+        return True
+    if impl.startswith("R[") and "|F[" in impl:
+        from props import c15
+        return c15.compare(impl, other)
+    return False
+
+
 def nontrivial(case: Case, spec: str) -> bool:
+    if case.line.startswith("(hc "):
+        return not spec.startswith("R[]")
     if case.line.startswith("(w2 "):
         m2 = re.match(r"A\[([^\]]*)\]\|B\[([^\]]*)\]", spec)
         return bool(m2 and m2.group(2) not in ("", "-"))
     m = re.match(r"C\[([^\]]*)\]", spec)
     nops = len(re.findall(r"\(", case.line[case.line.rfind("(ops "):])) - 1
     return bool(m and m.group(1)) and nops >= 2
+
+
+_INDEXED = ("(setitem", "(remove", "(pop", "(delitem")   # operations that raise when an earlier write is taken away
 
 
 def _shrink2(case: Case):
@@ -486,11 +704,26 @@ def _shrink2(case: Case):
     ops = parse_sexp("(" + m.group(1) + ")")
     for i in range(len(ops)):
         rest = ops[:i] + ops[i + 1:]
-        if rest and not any(isinstance(o[1], list) and o[1][0] == "setitem" for o in rest[i:] if len(o) > 1):
+        if rest and not any(isinstance(o[1], list) and ("(" + o[1][0]) in _INDEXED for o in rest[i:] if len(o) > 1):
             yield Case(f"{head}(ops {' '.join(ren(o) for o in rest)}))", case.tags, "shrink")
 
 
 def shrink(case: Case):
+    if case.line.startswith("(hc "):
+        m = re.search(r"\(ops (.*)\)\)$", case.line)
+        if not m:
+            return
+        from props._pd import parse_sexp
+
+        def ren(x):
+            return x if isinstance(x, str) else "(" + " ".join(ren(y) for y in x) + ")"
+
+        ops = parse_sexp("(" + m.group(1) + ")")
+        for i in range(len(ops)):
+            if ops[i][0] != "ctor" and len(ops) > 1:      # taking a write away never makes a history ill-formed
+                yield Case(f"{case.line[: m.start()]}(ops {' '.join(ren(o) for o in ops[:i] + ops[i + 1:])}))",
+                           case.tags, "shrink")
+        return
     if case.line.startswith("(w2 "):
         yield from _shrink2(case)
         return
@@ -504,10 +737,10 @@ def shrink(case: Case):
         rest = ops[:i] + ops[i + 1:]
         if ops[i].startswith("(fresh"):
             continue  # the element is used later: keep its creation
-        if rest and not any(o.startswith("(setitem") for o in rest[i:]):
+        if rest and not any(o.startswith(_INDEXED) for o in rest[i:]):
             yield Case(f"{head}(init{''.join(' ' + x for x in init)}) (ops {' '.join(rest)}))", case.tags, "shrink")
     for i in range(len(init)):
-        if not any(o.startswith("(setitem") for o in ops):
+        if not any(o.startswith(_INDEXED) for o in ops):
             r = init[:i] + init[i + 1:]
             yield Case(f"{head}(init{''.join(' ' + x for x in r)}) (ops {' '.join(ops)}))", case.tags, "shrink")
 
@@ -515,7 +748,7 @@ def shrink(case: Case):
 def revive(case: Case) -> Case:
     """stored lines (corpus, finding witnesses, replays) carry the numeric encoding of the declared semantics as it
     was when they were written; re-read it from the real classes so that only the history is replayed"""
-    m = re.match(r"^\((h|w2|w) \(schema (\w)\) .*? \(objs ", case.line)
+    m = re.match(r"^\((hc|h|w2|w) \(schema (\w)\) .*? \(objs ", case.line)
     if not m:
         return case
     try:
